@@ -42,6 +42,9 @@ Ops == << [polys |-> <<R(2, 2, 8, 6)>>, merged |-> Solo(R(2, 2, 8, 6))],
            merged |-> Each(<<R(1, 1, 5, 5), R(7, 1, 11, 5)>>)],
           [polys |-> << << <<5, 1>>, <<1, 1>>, <<1, 5>>, <<5, 5>> >>, R(7, 3, 11, 9)>>,
            merged |-> Each(<<R(1, 1, 5, 5), R(7, 3, 11, 9)>>)],
+          \* vertex lists that repeat their first vertex at the end (explicitly closed)
+          [polys |-> << << <<8, 2>>, <<8, 6>>, <<2, 6>>, <<2, 2>>, <<8, 2>> >> >>, merged |-> Solo(R(2, 2, 8, 6))],
+          [polys |-> << << <<10, 1>>, <<10, 5>>, <<5, 5>>, <<5, 11>>, <<1, 11>>, <<1, 1>>, <<10, 1>> >> >>, merged |-> Solo(LShape)],
           \* a sliver next to a pad: a negative distance beyond half the sliver's size must make it vanish
           [polys |-> <<R(1, 1, 5, 2), R(1, 4, 11, 11)>>, merged |-> Each(<<R(1, 1, 5, 2), R(1, 4, 11, 11)>>)] >>
 Dists == IF Depth = "thorough" THEN {1, 2, 3, 5, -1, -2, -3, -5} ELSE {1, 3, -1, -2, -3, -5}
